@@ -7,6 +7,7 @@ import GrinVerif.Lemmas.PowUXor
 import GrinVerif.Lemmas.PowRoodComplete
 import GrinVerif.Model.PowCtx
 import GrinVerif.Model.PowDiff
+import GrinVerif.Model.PowSize
 /-! # C05 — PoW verification accepts exactly the simple cycles of the header-seeded graph
 
 All theorems are about the verifier models of `Model/Pow.lean` (transliterations of the five Rust
@@ -605,6 +606,101 @@ theorem verify_eq_fresh (v : Variant) (eb ps cps : Nat) (pre post : List CtxOp)
   exact hp post _ hpost
 
 example : lastSeed [.seed [1] none true, .find [[0]], .seed [2] (some 7) false, .find []] = some ([2], some 7) := rfl
+
+/-! ## The node's entry point `pow::verify_size`
+
+`verifySize` (Model/PowSize.lean) wraps the per-variant verifiers the way `pow::verify_size` does:
+context selected by (chain type, height, edge_bits), created with `proof_size` = the number of
+nonces the header carries, seeded with the header's `pre_pow`. "Exactly the required number of
+nonces" holds at this level for every chain type, height, edge_bits (hence every variant) and every
+header: `verifySize_ok_length`. Consequently a header read in the skip-proof deserialisation mode
+(empty nonce vector), every strict prefix of a proof and every extension of it are refused. -/
+
+/-- every variant's `verify` starts with the count test -/
+theorem verifyOf_ok_length (v : Variant) (P : Params) (ep : Nat → Nat × Nat) (ns : List Nat)
+    (h : verifyOf v P ep ns = .ok ()) : ns.length = P.proofsize := by
+  apply Classical.byContradiction
+  intro hne
+  cases v <;>
+    simp [verifyOf, verifyCuckatoo, verifyCuckaroo, verifyCuckarooz, verifyU, verifyCuckarood,
+      verifyCuckaroom, hne] at h
+
+/-- a context seeded once for verification -/
+theorem fresh_verify (v : Variant) (eb ps cps : Nat) (hdr : Bytes) (nonce : Option Nat) (ns : List Nat) :
+    ((Ctx.new v eb ps cps).step (.seed hdr nonce false)).verify ns
+      = verifyOf v (mkParams eb ps cps) (epOf v (keysOfHeader hdr nonce) eb) ns := by
+  simp [Ctx.step, Ctx.new, Ctx.verify]
+
+/-- `verify_size` accepts exactly when a context could be created for (chain type, height,
+edge_bits) and that variant's `verify`, seeded with the header's `pre_pow`, accepts. -/
+theorem verifySize_ok_iff (c : ChainType) (height eb : Nat) (prePow : Bytes) (ns : List Nat) :
+    verifySize c height eb prePow ns = .ok () ↔
+    ∃ v, selectVariant c height eb = some v ∧
+      verifyOf v (mkParams eb (proofsizeOf c) ns.length) (epOf v (keysOfHeader prePow none) eb) ns = .ok () := by
+  unfold verifySize
+  split
+  · next hv => simp [hv]
+  · next v hv =>
+    simp only [fresh_verify]
+    constructor
+    · intro h
+      refine ⟨v, hv, ?_⟩
+      split at h
+      · next hok => exact hok
+      · cases h
+    · rintro ⟨v', hv', hok⟩
+      rw [hv] at hv'
+      cases hv'
+      rw [hok]
+
+/-- "exactly the required number of nonces", at the node's entry point: for every chain type,
+height, edge_bits (hence every variant) and every header, an accepted proof has exactly
+`global::proofsize()` nonces. -/
+theorem verifySize_ok_length (c : ChainType) (height eb : Nat) (prePow : Bytes) (ns : List Nat)
+    (h : verifySize c height eb prePow ns = .ok ()) : ns.length = proofsizeOf c := by
+  obtain ⟨v, _, hok⟩ := (verifySize_ok_iff c height eb prePow ns).mp h
+  exact verifyOf_ok_length v _ _ ns hok
+
+/-- … so every other count is refused: the empty vector (a header read in the skip-proof mode),
+every strict prefix, every extension -/
+theorem verifySize_wrong_length_refused (c : ChainType) (height eb : Nat) (prePow : Bytes) (ns : List Nat)
+    (hlen : ns.length ≠ proofsizeOf c) : verifySize c height eb prePow ns ≠ .ok () :=
+  fun h => hlen (verifySize_ok_length c height eb prePow ns h)
+
+/-- with the error kind: the count is tested before anything else -/
+theorem verifySize_wrong_length_error (c : ChainType) (height eb : Nat) (prePow : Bytes) (ns : List Nat)
+    (hlen : ns.length ≠ proofsizeOf c) :
+    verifySize c height eb prePow ns = .error .noCtx ∨
+    verifySize c height eb prePow ns = .error (.verify .wrongLen) := by
+  unfold verifySize
+  split
+  · exact Or.inl rfl
+  · next v hv =>
+    right
+    simp only [fresh_verify]
+    have hne : ¬ ns.length = (mkParams eb (proofsizeOf c) ns.length).proofsize := hlen
+    cases v <;>
+      simp [verifyOf, verifyCuckatoo, verifyCuckaroo, verifyCuckarooz, verifyU, verifyCuckarood,
+        verifyCuckaroom, hne]
+
+/-- an accepted header's context was created with `proof_size = global::proofsize()`: the
+hypothesis `hctx` of the Cuckarooz theorems always holds behind `verify_size` -/
+theorem verifySize_ok_ctx_size (c : ChainType) (height eb : Nat) (prePow : Bytes) (ns : List Nat)
+    (h : verifySize c height eb prePow ns = .ok ()) :
+    (mkParams eb (proofsizeOf c) ns.length).ctxProofSize = (mkParams eb (proofsizeOf c) ns.length).proofsize := by
+  have := verifySize_ok_length c height eb prePow ns h
+  simpa [mkParams] using this
+
+
+/-- non-vacuity: a header genuinely mined by the repo's `pow_size` (AutomatedTesting, height 0,
+edge_bits 10; `pre_pow` bytes and nonces as observed in the `vsize` run) is accepted by the model,
+blake2b and siphash included … -/
+example : verifySize .automated 0 10 [0, 1, 0, 0, 0, 0, 0, 0, 0, 0, 0, 0, 0, 0, 0, 0, 0, 0, 5, 156, 63, 119, 183, 153, 125, 96, 95, 182, 153, 68, 48, 49, 222, 211, 30, 128, 111, 33, 254, 209, 143, 20, 206, 89, 22, 34, 96, 80, 31, 110, 199, 117, 92, 148, 109, 21, 143, 117, 166, 188, 141, 81, 173, 55, 17, 247, 246, 104, 172, 95, 173, 55, 15, 160, 22, 241, 102, 176, 138, 237, 116, 81, 219, 249, 212, 232, 101, 106, 173, 154, 203, 79, 212, 151, 3, 141, 49, 177, 39, 44, 112, 245, 136, 161, 218, 62, 137, 234, 216, 249, 156, 155, 84, 109, 0, 0, 0, 0, 0, 0, 0, 0, 0, 0, 0, 0, 0, 0, 0, 0, 0, 0, 0, 0, 0, 0, 0, 0, 0, 0, 0, 0, 0, 0, 0, 0, 164, 43, 73, 128, 31, 234, 176, 65, 59, 185, 80, 137, 47, 18, 36, 23, 254, 75, 200, 195, 209, 154, 138, 75, 31, 5, 235, 77, 30, 104, 76, 167, 0, 0, 0, 0, 0, 0, 0, 0, 0, 0, 0, 0, 0, 0, 0, 0, 0, 0, 0, 0, 0, 0, 0, 0, 0, 0, 0, 0, 0, 0, 0, 0, 0, 0, 0, 0, 0, 4, 217, 56, 0, 0, 0, 0, 0, 8, 213, 104, 0, 8, 83, 13, 68, 200, 14, 188, 83, 245, 21, 65, 35, 1, 10, 200, 34, 26, 128, 183] [30,397,435,521,683,836,1018,1023] = .ok () := by decide +kernel
+
+/-- … and its seven-nonce prefix is refused for its length. -/
+example : verifySize .automated 0 10 [0, 1, 0, 0, 0, 0, 0, 0, 0, 0, 0, 0, 0, 0, 0, 0, 0, 0, 5, 156, 63, 119, 183, 153, 125, 96, 95, 182, 153, 68, 48, 49, 222, 211, 30, 128, 111, 33, 254, 209, 143, 20, 206, 89, 22, 34, 96, 80, 31, 110, 199, 117, 92, 148, 109, 21, 143, 117, 166, 188, 141, 81, 173, 55, 17, 247, 246, 104, 172, 95, 173, 55, 15, 160, 22, 241, 102, 176, 138, 237, 116, 81, 219, 249, 212, 232, 101, 106, 173, 154, 203, 79, 212, 151, 3, 141, 49, 177, 39, 44, 112, 245, 136, 161, 218, 62, 137, 234, 216, 249, 156, 155, 84, 109, 0, 0, 0, 0, 0, 0, 0, 0, 0, 0, 0, 0, 0, 0, 0, 0, 0, 0, 0, 0, 0, 0, 0, 0, 0, 0, 0, 0, 0, 0, 0, 0, 164, 43, 73, 128, 31, 234, 176, 65, 59, 185, 80, 137, 47, 18, 36, 23, 254, 75, 200, 195, 209, 154, 138, 75, 31, 5, 235, 77, 30, 104, 76, 167, 0, 0, 0, 0, 0, 0, 0, 0, 0, 0, 0, 0, 0, 0, 0, 0, 0, 0, 0, 0, 0, 0, 0, 0, 0, 0, 0, 0, 0, 0, 0, 0, 0, 0, 0, 0, 0, 4, 217, 56, 0, 0, 0, 0, 0, 8, 213, 104, 0, 8, 83, 13, 68, 200, 14, 188, 83, 245, 21, 65, 35, 1, 10, 200, 34, 26, 128, 183] [30,397,435,521,683,836,1018] = .error (.verify .wrongLen) := by decide +kernel
+
+example : proofsizeOf .automated = 8 ∧ proofsizeOf .mainnet = 42 := by decide
 
 /-! ## Difficulty
 
